@@ -334,4 +334,15 @@ func H_C11_longname() {
 		vxrt.Assert(len(t.errors) == 0 && len(t.logs) == 1, "C11:created")
 		vxrt.Assert(vxReadFile(dir+"/TestLong_"+string(stem)+last+"_1"+sfx) == v, "C11:standalone-name-is-the-test-name")
 	}
+	// only '/' is replaced: sub-test names with other punctuation keep it
+	for _, sub := range []string{"host:port", `a\b`, "50%", "x y", "q?*"} {
+		t := vxNewT("TestP/" + sub)
+		if json {
+			c.MatchStandaloneJSON(t, `"p"`)
+		} else {
+			c.MatchStandaloneSnapshot(t, `"p"`)
+		}
+		t.end()
+		vxrt.Assert(len(t.errors) == 0 && vxReadFile(dir+"/TestP_"+sub+"_1"+sfx) == `"p"`, "C11:standalone-name-is-the-test-name")
+	}
 }
